@@ -30,3 +30,7 @@ func verifPanics(f func()) (p bool) {
 func verifCall0(f func()) { f() }
 
 func newCondFor(l sync.Locker) *sync.Cond { return sync.NewCond(l) }
+
+// verifDeadlineRunner is the pseudo-goroutine of a context created with a deadline: the deadline may pass
+// at any moment (engine only).
+func verifDeadlineRunner(id int) { verifFireDeadline(id) }
